@@ -1,6 +1,36 @@
 //! The tiny type language describing catalogue programs (derive inputs and std containers).
 //! A `Catalogue` is a list of named type definitions plus a list of root types ("programs").
 
+/// An integer target type: its Rust spelling, its domain, and whether negative integers are an
+/// admissible kind and zero is excluded.
+#[derive(Clone, Copy, Debug, PartialEq, Eq)]
+pub struct IntTy {
+    pub name: &'static str,
+    pub min: i128,
+    pub max: i128,
+    pub signed: bool,
+    pub nonzero: bool,
+}
+
+pub const INT_TYPES: [IntTy; 16] = [
+    IntTy { name: "i8", min: i8::MIN as i128, max: i8::MAX as i128, signed: true, nonzero: false },
+    IntTy { name: "i16", min: i16::MIN as i128, max: i16::MAX as i128, signed: true, nonzero: false },
+    IntTy { name: "i64", min: i64::MIN as i128, max: i64::MAX as i128, signed: true, nonzero: false },
+    IntTy { name: "i128", min: i128::MIN, max: i128::MAX, signed: true, nonzero: false },
+    IntTy { name: "isize", min: isize::MIN as i128, max: isize::MAX as i128, signed: true, nonzero: false },
+    IntTy { name: "u16", min: 0, max: u16::MAX as i128, signed: false, nonzero: false },
+    IntTy { name: "u32", min: 0, max: u32::MAX as i128, signed: false, nonzero: false },
+    IntTy { name: "u128", min: 0, max: i128::MAX, signed: false, nonzero: false },
+    IntTy { name: "usize", min: 0, max: usize::MAX as i128, signed: false, nonzero: false },
+    IntTy { name: "std::num::NonZeroU8", min: 1, max: u8::MAX as i128, signed: false, nonzero: true },
+    IntTy { name: "std::num::NonZeroU32", min: 1, max: u32::MAX as i128, signed: false, nonzero: true },
+    IntTy { name: "std::num::NonZeroU64", min: 1, max: u64::MAX as i128, signed: false, nonzero: true },
+    IntTy { name: "std::num::NonZeroI8", min: i8::MIN as i128, max: i8::MAX as i128, signed: true, nonzero: true },
+    IntTy { name: "std::num::NonZeroI32", min: i32::MIN as i128, max: i32::MAX as i128, signed: true, nonzero: true },
+    IntTy { name: "std::num::NonZeroI64", min: i64::MIN as i128, max: i64::MAX as i128, signed: true, nonzero: true },
+    IntTy { name: "std::num::NonZeroUsize", min: 1, max: usize::MAX as i128, signed: false, nonzero: true },
+];
+
 #[derive(Clone, Copy, Debug, PartialEq, Eq)]
 pub enum Sc {
     Bool,
@@ -10,7 +40,10 @@ pub enum Sc {
     Str,
     Char,
     F64,
+    F32,
     Unit,
+    /// any other integer width / NonZero type
+    Int(IntTy),
 }
 
 impl Sc {
@@ -23,12 +56,27 @@ impl Sc {
             Sc::Str => "String",
             Sc::Char => "char",
             Sc::F64 => "f64",
+            Sc::F32 => "f32",
             Sc::Unit => "()",
+            Sc::Int(t) => t.name,
         }
     }
     /// usable as element of a set (Hash + Eq + Ord)
     pub fn hashable(&self) -> bool {
-        !matches!(self, Sc::F64)
+        !matches!(self, Sc::F64 | Sc::F32)
+    }
+    pub fn int_ty(&self) -> Option<IntTy> {
+        match self {
+            Sc::U8 => Some(IntTy { name: "u8", min: 0, max: u8::MAX as i128, signed: false, nonzero: false }),
+            Sc::I32 => Some(IntTy { name: "i32", min: i32::MIN as i128, max: i32::MAX as i128, signed: true, nonzero: false }),
+            Sc::U64 => Some(IntTy { name: "u64", min: 0, max: u64::MAX as i128, signed: false, nonzero: false }),
+            Sc::Int(t) => Some(*t),
+            _ => None,
+        }
+    }
+    /// does the type implement Default? (NonZero types do not)
+    pub fn has_default(&self) -> bool {
+        !matches!(self, Sc::Int(t) if t.nonzero)
     }
 }
 
@@ -309,7 +357,8 @@ impl Catalogue {
     /// Does this type implement `Default`? (needed for `skip` / `default`)
     pub fn has_default_impl(&self, d: &Desc) -> bool {
         match d {
-            Desc::Probe(_) | Desc::Scalar(_) | Desc::Option(_) | Desc::Vec(_) => true,
+            Desc::Scalar(s) => s.has_default(),
+            Desc::Probe(_) | Desc::Option(_) | Desc::Vec(_) => true,
             Desc::HashSet(_) | Desc::BTreeSet(_) | Desc::HashMap(..) | Desc::BTreeMap(..) => true,
             _ => false,
         }
